@@ -285,5 +285,339 @@ def num_fmt(ctx, repo, scope=("",), rule="NUM-FMT", _self=False):
             ctx.ob(rule, f"{rel}:<module>", f"{total} optional numbers are written under `is not None`", not bad, "" if not bad else "; ".join(bad))
 
 
-NEW = [first_only, none_sentinel, acc_reset, presence_kind, num_fmt]
+
+
+# ---------------------------------------------------------------------------
+# UNBOUND: a local read on a path on which none of its bindings has run
+# ---------------------------------------------------------------------------
+_POSITIVE["UNBOUND"] = '''
+def dump(self, writer, writeVersion=True, splitTables=False):
+    if writeVersion:
+        version = compute()
+        writer.begintag("ttFont", ttLibVersion=version)
+    else:
+        writer.begintag("ttFont")
+    for tag in self.tables:
+        if splitTables:
+            tableWriter = make(tag)
+            tableWriter.begintag("ttFont", ttLibVersion=version)
+'''
+
+# (module, function, variable) -> why no path reaches the read without a binding (each confirmed by reading)
+UNBOUND_AUDIT = {
+    ("cffLib/__init__.py", "CharsetConverter._read", "charset"): "the else arm is entered only with value in {0, 1, 2} (value > 2 takes the other arm) and each of the three binds charset",
+    ("cu2qu/ufo.py", "fonts_to_quadratic", "max_errors"): "the two TypeError guards above leave exactly one of max_err / max_err_em set; each non-None case binds max_errors",
+    ("feaLib/parser.py", "Parser.parse_table_BASE_", "horiz_bases"): "bound by the HorizAxis.BaseTagList statement, which the grammar puts before BaseScriptList; a malformed file with the two swapped raises UnboundLocalError instead of FeatureLibError (input robustness, not a claimed clause)",
+    ("feaLib/parser.py", "Parser.parse_table_BASE_", "vert_bases"): "as horiz_bases, for the vertical axis",
+    ("ttLib/tables/_c_m_a_p.py", "cmap_format_14.fromXML", "uvsDict"): "latent only: the alias is bound when the object has no uvsDict yet, which is always the case for the fresh subtable XMLReader hands to fromXML",
+    ("ttLib/tables/_c_m_a_p.py", "cmap_format_4.compile", "cmap"): "bound in the else arm of `if not charCodes`; the later loop that reads it iterates charCodes and does not run when it is empty",
+    ("ttLib/ttFont.py", "TTFont._tableToXML", "table"): "bound under `if tag in self`; the function returns under `if tag not in self` before the read",
+    ("ufoLib/validators.py", "colorValidator", "number"): "bound by the first successful conversion in the try chain; every failing chain returns False before the read",
+    ("varLib/mutator.py", "instantiateVariableFont", "g"): "g is bound together with origCoords the first time origCoords is None, which dominates every read",
+}
+
+
+def _store_names(t):
+    return [n.id for n in ast.walk(t) if isinstance(n, ast.Name) and isinstance(n.ctx, ast.Store)]
+
+
+def _stmt_defs(st):
+    """names certainly bound once the statement (header) has executed"""
+    out = []
+    if isinstance(st, ast.Assign):
+        for t in st.targets:
+            out += _store_names(t)
+    elif isinstance(st, ast.AnnAssign) and st.value is not None:
+        out += _store_names(st.target)
+    elif isinstance(st, ast.AugAssign):
+        out += _store_names(st.target)
+    elif isinstance(st, (ast.For, ast.AsyncFor)):
+        out += _store_names(st.target)  # bound in the body; after the loop only if it ran (idiomatic, not reported)
+    elif isinstance(st, (ast.With, ast.AsyncWith)):
+        for it in st.items:
+            if it.optional_vars is not None:
+                out += _store_names(it.optional_vars)
+    elif isinstance(st, (ast.Import, ast.ImportFrom)):
+        for a in st.names:
+            out.append((a.asname or a.name).split(".")[0])
+    elif isinstance(st, (ast.FunctionDef, ast.AsyncFunctionDef, ast.ClassDef)):
+        out.append(st.name)
+    elif isinstance(st, ast.ExceptHandler):
+        if st.name:
+            out.append(st.name)
+    # walrus anywhere in the header
+    for part in consistency._header_parts(st) if not isinstance(st, (ast.FunctionDef, ast.AsyncFunctionDef, ast.ClassDef)) else []:
+        if part is None:
+            continue
+        for n in ast.walk(part):
+            if isinstance(n, ast.NamedExpr) and isinstance(n.target, ast.Name):
+                out.append(n.target.id)
+    return out
+
+
+def _header_loads(st):
+    """(name, node) loaded when the statement header runs; nested defs / lambdas are deferred, comprehension targets are their own scope"""
+    if isinstance(st, (ast.FunctionDef, ast.AsyncFunctionDef, ast.ClassDef)):
+        parts = list(st.decorator_list)
+        if not isinstance(st, ast.ClassDef):
+            parts += [d for d in st.args.defaults + st.args.kw_defaults if d is not None]
+    else:
+        parts = [p for p in consistency._header_parts(st) if p is not None]
+        if isinstance(st, (ast.For, ast.AsyncFor)):
+            parts = [st.iter]
+    out = []
+
+    def walk(n, hidden):
+        if isinstance(n, (ast.Lambda, ast.FunctionDef, ast.AsyncFunctionDef, ast.ClassDef)):
+            return
+        if isinstance(n, (ast.ListComp, ast.SetComp, ast.GeneratorExp, ast.DictComp)):
+            h = set(hidden)
+            for g in n.generators:
+                walk(g.iter, h)
+                h |= set(_store_names(g.target))
+                for c in g.ifs:
+                    walk(c, h)
+            for e in ([n.key, n.value] if isinstance(n, ast.DictComp) else [n.elt]):
+                walk(e, h)
+            return
+        if isinstance(n, ast.Name) and isinstance(n.ctx, (ast.Load, ast.Del)) and n.id not in hidden:
+            out.append((n.id, n))
+        for c in ast.iter_child_nodes(n):
+            walk(c, hidden)
+
+    for p in parts:
+        walk(p, set())
+    return out
+
+
+def _guards(st):
+    from ..cfg import guard_conditions
+
+    out = set()
+    for t, pol in guard_conditions(st):
+        while isinstance(t, ast.UnaryOp) and isinstance(t.op, ast.Not):
+            t, pol = t.operand, not pol
+        if isinstance(t, ast.BoolOp) and isinstance(t.op, ast.Or) and not pol:
+            # not (a or b)  ==  not a and not b
+            for v in t.values:
+                p2 = False
+                while isinstance(v, ast.UnaryOp) and isinstance(v.op, ast.Not):
+                    v, p2 = v.operand, not p2
+                out.add((norm(v), p2))
+        elif isinstance(t, ast.BoolOp) and isinstance(t.op, ast.And) and pol:
+            for v in t.values:
+                p2 = True
+                while isinstance(v, ast.UnaryOp) and isinstance(v.op, ast.Not):
+                    v, p2 = v.operand, not p2
+                out.add((norm(v), p2))
+        else:
+            out.add((norm(t), pol))
+    return out
+
+
+def _expr_guards(node, st):
+    """conditions that hold when ``node`` is evaluated inside its statement: earlier operands of and/or, ternary tests"""
+    out = set()
+    cur = node
+    p = parent(cur)
+    while p is not None and cur is not st:
+        if isinstance(p, ast.BoolOp):
+            k = next((i for i, v in enumerate(p.values) if v is cur), 0)
+            for v in p.values[:k]:
+                pol = isinstance(p.op, ast.And)
+                while isinstance(v, ast.UnaryOp) and isinstance(v.op, ast.Not):
+                    v, pol = v.operand, not pol
+                out.add((norm(v), pol))
+        elif isinstance(p, ast.IfExp) and cur is not p.test:
+            t, pol = p.test, cur is p.body
+            while isinstance(t, ast.UnaryOp) and isinstance(t.op, ast.Not):
+                t, pol = t.operand, not pol
+            out.add((norm(t), pol))
+        cur, p = p, parent(p)
+    return out
+
+
+def _in_try_finally(d, use):
+    p = parent(d)
+    while p is not None:
+        if isinstance(p, ast.Try) and p.finalbody and any(_inside(d, b) for b in p.body) and not _inside(use, p):
+            return True
+        p = parent(p)
+    return False
+
+
+def _inside(n, anc):
+    p = n
+    while p is not None:
+        if p is anc:
+            return True
+        p = parent(p)
+    return False
+
+
+def _chain_root(st):
+    """outermost If of the if/elif chain in whose arm ``st`` sits directly (else None)"""
+    p = parent(st)
+    while isinstance(p, (ast.With, ast.AsyncWith, ast.Try)):
+        p = parent(p)
+    if not isinstance(p, ast.If):
+        return None
+    root = p
+    while isinstance(parent(root), ast.If) and len(parent(root).orelse) == 1 and parent(root).orelse[0] is root:
+        root = parent(root)
+    return root
+
+
+def _same_chain(dsites):
+    roots = {id(_chain_root(d)) for d in dsites}
+    if len(roots) != 1 or None in {_chain_root(d) for d in dsites}:
+        return False
+    return len(dsites) >= 2
+
+
+def unbound(ctx, repo, scope=("",), rule="UNBOUND", _self=False):
+    from ..cfg import CFG, guard_conditions
+
+    ctx.rule(rule, "no local variable is read on a path on which none of its bindings has executed (UnboundLocalError for one combination of options / inputs), unless a binding sits under the very conditions that guard the read or the site is audited", floor=1)
+    if not _self:
+        _selfcheck(ctx, rule, unbound)
+    seen_audit = set()
+    for rel in sorted(repo.rels()):
+        if not _in_scope(rel, scope):
+            continue
+        m = repo.mod(rel)
+        total = 0
+        bad = []
+        for q, f in sorted(m.funcs.items()):
+            fn = f.node
+            if isinstance(fn, ast.Lambda):
+                continue
+            a = fn.args
+            params = {x.arg for x in a.posonlyargs + a.args + a.kwonlyargs}
+            if a.vararg:
+                params.add(a.vararg.arg)
+            if a.kwarg:
+                params.add(a.kwarg.arg)
+            nonlocal_ = set()
+            for n in walk_no_nested(fn):
+                if isinstance(n, (ast.Global, ast.Nonlocal)):
+                    nonlocal_.update(n.names)
+            g = CFG(fn)
+            defs_at = {}
+            locals_ = set()
+            def_sites = {}
+            for i, st in g.stmt.items():
+                if st is None:
+                    continue
+                ds = [d for d in _stmt_defs(st) if d not in nonlocal_]
+                defs_at[i] = set(ds)
+                locals_.update(ds)
+                for d in ds:
+                    def_sites.setdefault(d, []).append(st)
+            locals_ -= params
+            if not locals_:
+                continue
+            nodes = [i for i in g.stmt if i in g._reach(0, g.succ)]
+            ALL = frozenset(locals_)
+            IN = {i: ALL for i in nodes}
+            IN[0] = frozenset()
+            changed = True
+            order = sorted(nodes)
+            while changed:
+                changed = False
+                for i in order:
+                    if i == 0:
+                        continue
+                    ps = [p for p in g.pred[i] if p in IN]
+                    if not ps:
+                        continue
+                    new = None
+                    for p in ps:
+                        sp0 = g.stmt[p]
+                        if isinstance(sp0, ast.Expr) and isinstance(sp0.value, ast.Call) and norm(sp0.value.func) in ("sys.exit", "exit", "os._exit", "parser.error", "self.fail"):
+                            continue  # does not return
+                        if isinstance(sp0, ast.Assert) and isinstance(sp0.test, ast.Constant) and not sp0.test.value:
+                            continue  # assert 0 / assert False: raises (except under -O)
+                        o = IN[p] | frozenset(defs_at.get(p, ()))
+                        # `del x` un-binds
+                        sp = g.stmt[p]
+                        if isinstance(sp, ast.Delete):
+                            o = o - frozenset(t.id for t in sp.targets if isinstance(t, ast.Name))
+                        new = o if new is None else (new & o)
+                    if new is None:
+                        new = ALL  # only reached from non-returning statements
+                    if new != IN[i]:
+                        IN[i] = new
+                        changed = True
+            reported = set()
+            for i in order:
+                st = g.stmt[i]
+                if st is None:
+                    continue
+                for name, node in _header_loads(st):
+                    if name not in locals_ or name in IN[i]:
+                        continue
+                    if isinstance(st, ast.AugAssign) and isinstance(st.target, ast.Name) and st.target.id == name and node is st.target:
+                        pass
+                    total += 1
+                    if name in reported:
+                        continue
+                    # correlated guards: a binding that sits under a subset of the conditions guarding this read
+                    gu = _guards(st) | _expr_guards(node, st)
+                    corr = False
+                    dsites = [d for d in def_sites.get(name, []) if d is not st]
+                    # bound by a walrus in the same statement (evaluation order inside one statement is not modelled)
+                    if any(isinstance(x, ast.NamedExpr) and isinstance(x.target, ast.Name) and x.target.id == name for x in ast.walk(st) if not isinstance(st, (ast.FunctionDef, ast.AsyncFunctionDef, ast.ClassDef))):
+                        continue
+                    # every binding is in the body of a try ... finally and the read comes after it: the only binding-free way
+                    # through the finally is the exceptional one, which does not continue to the read
+                    if dsites and all(_in_try_finally(d, st) for d in dsites):
+                        continue
+                    for d in dsites:
+                        gd = _guards(d)
+                        if gd and gd <= gu:
+                            corr = True
+                        # for-loop variable read after its loop (idiom: the loop is known to run)
+                        if isinstance(d, (ast.For, ast.AsyncFor)):
+                            corr = True
+                        # bound inside a loop body, read after that loop (idiom: the loop runs at least once)
+                        lp = parent(d)
+                        while lp is not None and lp is not fn:
+                            if isinstance(lp, (ast.For, ast.AsyncFor, ast.While)) and not _inside(st, lp):
+                                corr = True
+                            lp = parent(lp)
+                    # co-assigned flag: the read is guarded by a test on v, and a binding of the name sits in a block that also assigns v
+                    if not corr:
+                        gvars = set()
+                        for t, pol in guard_conditions(st):
+                            gvars |= {x.id for x in ast.walk(t) if isinstance(x, ast.Name)}
+                        if isinstance(st, (ast.If, ast.While)):
+                            pass
+                        for d in dsites:
+                            holder = parent(d)
+                            for fld in ("body", "orelse", "finalbody"):
+                                blk = getattr(holder, fld, None)
+                                if isinstance(blk, list) and any(x is d for x in blk):
+                                    for sib in blk:
+                                        if set(_stmt_defs(sib)) & gvars and sib is not d or (sib is d and set(_stmt_defs(sib)) & gvars - {name}):
+                                            corr = True
+                    # dispatch chain: every binding sits in an arm of one if/elif chain without else (format / version / mode switch)
+                    if not corr and dsites and _same_chain(dsites):
+                        corr = True
+                    if corr:
+                        continue
+                    reported.add(name)
+                    key = (rel, q.split("#")[0], name)
+                    if key in UNBOUND_AUDIT:
+                        seen_audit.add(key)
+                        ctx.ob(rule, f"{rel}:{q}", f"{name} (audited: {UNBOUND_AUDIT[key]})", True)
+                    else:
+                        bad.append(f"{q}: `{name}` read in `{norm(st)[:50]}` with no binding on some path")
+            total += 0
+        ctx.ob(rule, f"{rel}:<module>", "every local read is preceded by a binding on all paths (or correlated / audited)", not bad, "; ".join(bad[:3]) + (f" (+{len(bad) - 3} more)" if len(bad) > 3 else ""))
+
+
+
+
+NEW = [first_only, none_sentinel, acc_reset, presence_kind, num_fmt, unbound]
 GENERIC.extend(NEW)
